@@ -28,10 +28,11 @@ vars == <<l, bad, memo, seen>>
 Init == l = 1 /\ bad = <<>> /\ memo = {} /\ seen = {}
 
 P(e, i) == IF i <= Len(e.p) THEN e.p[i] ELSE 0
+HasPx(e) == "px" \in DOMAIN e.res
 
 \* reader result, expected runes, expected Content() bytes, expected kind, representable, dontcare, hascs, expected cs
 Judge(e) ==
-  LET m == IF e.res.kind = "ok" /\ Len(e.res.px) >= 1 THEN e.res.px[1] ELSE <<>>
+  LET m == IF e.res.kind = "ok" /\ HasPx(e) /\ Len(e.res.px) >= 1 THEN e.res.px[1] ELSE <<>>
   IN CASE e.sym = "c128" ->
             LET wc == e.api \in {"Encode", "EncodeWithColor"}
                 rd == C128!Read(m, wc)
@@ -64,7 +65,7 @@ EncodeTags(e) ==
   LET j == Judge(e)
       r == e.res
   IN OutcomeTags(e) \o AcceptTags(e, j.rep, j.dontcare)
-     \o (IF r.kind # "ok" THEN <<>>
+     \o (IF r.kind # "ok" \/ ~HasPx(e) THEN <<>>
          ELSE (IF ~j.rd.ok THEN <<"structure-" \o j.rd.why>>
                ELSE (IF j.rd.runes # j.runes THEN <<"decode">> ELSE <<>>)
                     \o (IF r.content # j.content THEN <<"content">> ELSE <<>>)
@@ -87,9 +88,9 @@ Step ==
   /\ LET e == Trace[l]
          t == Tags(e)
      IN /\ bad' = bad \o [i \in 1..Len(t) |-> [l |-> l, why |-> t[i]]]
-        /\ memo' = IF Known(e) /\ e.res.kind = "ok" /\ ~\E x \in memo : x.k = PatternKey(e)
+        /\ memo' = IF Known(e) /\ e.res.kind = "ok" /\ HasPx(e) /\ ~\E x \in memo : x.k = PatternKey(e)
                    THEN memo \cup {[k |-> PatternKey(e), v |-> e.res.pxdigest]} ELSE memo
-        /\ seen' = IF Known(e) /\ e.sym = "c128" /\ e.res.kind = "ok" /\ Judge(e).rd.ok
+        /\ seen' = IF Known(e) /\ e.sym = "c128" /\ e.res.kind = "ok" /\ HasPx(e) /\ Judge(e).rd.ok
                    THEN seen \cup {Judge(e).rd.vals[i] : i \in 1..Len(Judge(e).rd.vals)} ELSE seen
   /\ l' = l + 1
 
